@@ -350,3 +350,36 @@ def symmetric_store_report(fi, matrices=None):
                 comp = True
         out.append((st, m, comp, "%s[%s][%s] = %s" % (m, show(a), show(b), show(v))))
     return out
+
+
+def resolve_locals(fi, t, at_cfg_node, tm, only_calls=False, depth=3):
+    """Replace local names occurring in term t by the term of their unique reaching definition at the given CFG node
+    (bounded depth).  Parameters and names without a unique reaching plain assignment stay as they are."""
+    if depth <= 0:
+        return t
+
+    def rec(x):
+        if isinstance(x, tuple) and len(x) == 2 and x[0] == "n":
+            nm = x[1]
+            if nm in fi.params:
+                return x
+            probe = None
+            src_node = at_cfg_node.ast if at_cfg_node.ast is not None else None
+            if src_node is None:
+                return x
+            for cand in ast.walk(src_node):
+                if isinstance(cand, ast.Name) and cand.id == nm and isinstance(cand.ctx, ast.Load):
+                    probe = cand
+                    break
+            if probe is None:
+                return x
+            b = reaching_unique_def(fi, nm, probe)
+            if b is not None and b.kind == "assign" and b.value is not None and (not only_calls or isinstance(b.value, ast.Call)):
+                inner = tm.term(b.value)
+                bn = cfg_of(fi).node_of(b.stmt)
+                return resolve_locals(fi, inner, bn, tm, only_calls, depth - 1) if bn is not None else inner
+            return x
+        if isinstance(x, tuple):
+            return tuple(rec(y) for y in x)
+        return x
+    return rec(t)
